@@ -253,3 +253,41 @@ def benign(props):
 
 if __name__ == '__main__' and sys.argv[1] == 'benign':
     benign(sys.argv[2:])
+
+
+def rebatch(props):
+    """detection only, for seeds confirmed before (their patch, demonstration and the pinned tests were checked when they came
+    in): apply, run the property's quick check in the isolated copy, record. Results in /tmp/seedrun/final"""
+    os.makedirs(S + '/final', exist_ok=True)
+    for d in sorted(glob.glob('/tmp/seed/out/C*/m*')):
+        pid = d.split('/')[-2]
+        if props and pid not in props:
+            continue
+        if not os.path.exists(os.path.join(d, 'meta.json')) or not os.path.exists(os.path.join(d, 'patch.diff')):
+            continue
+        name = '%s_%s' % (pid, os.path.basename(d))
+        out = '%s/final/%s.json' % (S, name)
+        if os.path.exists(out):
+            continue
+        prev = None
+        for base in ('results', 'results_part', 'results_old2', 'results_old'):
+            f = '%s/%s/%s.json' % (S, base, name)
+            if os.path.exists(f):
+                try:
+                    prev = json.load(open(f))
+                    if prev.get('confirmed'):
+                        break
+                except Exception:
+                    prev = None
+        r = {'seed': d, 'confirmed_before': bool(prev and prev.get('confirmed'))}
+        try:
+            r['detect'] = detect(d, [pid])
+        except Exception as e:
+            r['error'] = repr(e)
+        json.dump(r, open(out, 'w'), indent=1)
+        dd = (r.get('detect') or {}).get(pid) or {}
+        print('FINAL', name, 'confirmed_before', r['confirmed_before'], 'rc', dd.get('rc'), [l[:80] for l in dd.get('lines', []) if l.startswith('VIOLATION')][:1], flush=True)
+
+
+if __name__ == '__main__' and sys.argv[1] == 'rebatch':
+    rebatch(sys.argv[2:])
